@@ -13,6 +13,18 @@ Contracts (evaluated on the real t2incon code, each counted separately):
   bytes          writing the re-read object reproduces the first file byte for byte
   shipped-read   (7 shipped files) what t2incon() reads equals an own parse of the shipped file
 
+Input space: the product 1..12 variables x timing present/absent x reset on/off x TOUGH2/TOUGHREACT
+(permeabilities on all or some blocks) x 4 naming conventions x 3 atmosphere types is enumerated
+from the case number; drawn per case: 0..400 blocks named by mulgrid().rectangular (upper / lower
+case, enough columns and layers for 2- and 3-digit numeric parts) or by the block_name_list of a
+shipped geometry, value styles (pressures, temperatures, fractions, zero, short, negative,
+positive with 3-digit exponent, mantissas that round up into the exponent, ties), porosity
+absent / 9-digit / arbitrary, nseq/nadd absent / both / one, num_variables given or (<= 4
+variables) None.  Two small side populations, kept apart in the key's tag: `toughreact-noperm`
+(simulator TOUGHREACT, no block has permeabilities) and `neg3exp` (values that are negative AND
+have a 3-digit exponent, which do not fit 20 columns with 13 decimals).  Plus the 7 shipped files
+(read, checked against an own parse, then round-tripped with reset off and on).
+
 usage: c13_incons.py <tier> <seed>
 """
 import sys, os, json, time, random, math, tempfile, shutil, signal, re, io, contextlib
@@ -20,6 +32,7 @@ import multiprocessing as mp
 from collections import Counter
 
 REPO = os.environ.get('PYTOUGH_REPO', '/repo')
+sys.dont_write_bytecode = True          # never write inside the checkout
 sys.path.insert(0, REPO)
 import warnings
 warnings.filterwarnings('ignore')
